@@ -284,6 +284,8 @@ class World:
         self.mustdiv = {}           # (fname, i) -> True: the function divides by its i-th parameter unconditionally (one-level summaries, transitive)
         self.flag_kinds = {}        # (record, boolean field) -> {suffix ending in ->kind: kinds}: every store of `true` into the flag happens where the owner's
                                     #   sub-object has one of these kinds (validated at construction); derived by derive_flag_kinds
+        self.truth_helpers = {}     # fname -> index of the Node parameter: on every path the function returns 1 exactly where a test of an evaluator's
+                                    #   result for that parameter was non-zero, 0 where it was zero (derived in solve from the return states)
         self.evaluators = set()     # functions that compute the value of an expression node (first parameter): outcomes of tests on their results are remembered
         self.enum_universe = {}
         for u in self.units.values():
@@ -658,6 +660,16 @@ class Engine:
         out = self.ev(e.inner[0], S)
         if ck in ('ArrayToPointerDecay', 'FunctionToPointerDecay'):
             return [(s, Val(nul='NN', addr_of=v.path)) for s, v in out]
+        if ck in ('IntegralToBoolean', 'FloatingToBoolean'):
+            res = []
+            for s, v in out:
+                if (v.path is None and isinstance(v.ctype, tuple) and v.ctype[0].startswith('value-of(')) or (v.path is not None and v.path in self.evlocals):
+                    # the truth value of an evaluator's result (`return eval(node);` from a bool function, `bool b = eval(x);`)
+                    T, F = self.truth(s, v)
+                    res += [(t, Val(const=1)) for t in T] + [(f, Val(const=0)) for f in F]
+                else:
+                    res.append((s, v))
+            return res
         return out
 
     def e_CStyleCastExpr(self, e, S):
@@ -1344,6 +1356,10 @@ class Engine:
         if c in self.W.evaluators and vals and vals[0].path is not None:
             # the value of an expression node: a test of it is remembered (which operands the code evaluates under which outcome)
             r.ctype = ('value-of(%s)' % vals[0].path, frozenset([vals[0].path]))
+        ti = self.W.truth_helpers.get(c)
+        if ti is not None and ti < len(vals) and vals[ti].path is not None and self.W.resolve(self.u, c) is not None:
+            # the truth value of exactly that node (derived from the helper's return states): the same outcome
+            r.ctype = ('value-of(%s)' % vals[ti].path, frozenset([vals[ti].path]))
         if c in self.W.pure and not is_ptr_type(e.type) and (c, tuple(a.src() for a in args)) in self.repeated_pure:
             pk = self.pure_key(c, args, vals)
             if pk is not None:
@@ -2015,6 +2031,20 @@ class Engine:
                 self.exit_states.append(S)
         return self
 
+    def truth_param(self):
+        """index of the parameter whose truth value this function returns: every return is the constant 1 in a state where a test of an
+        evaluator's result for that parameter was non-zero, or the constant 0 where it was zero; None otherwise"""
+        if not self.ret_facts or not self.W.evaluators:
+            return None
+        for i, p in enumerate(self.params):
+            r = '%s@%s' % (p.name, p.id)
+            if rec_of(p.type) != 'Node' or not is_ptr_type(p.type) or r in self.assigned_params:
+                continue
+            k = 'value-of(%s)' % r
+            if all(c in (0, 1) and S.pc.get(k) is not None and S.pc[k][0] == (c == 1) for c, S in self.ret_facts):
+                return i
+        return None
+
     def kept_params(self):
         """pointer-to-pointer parameters this function never stores through (nor hands to a callee), per outcome"""
         cand = {}
@@ -2138,6 +2168,12 @@ def solve(W, max_rounds=12):
                     if len(W.fn_unit.get(c, ())) == 1 and (c, i) not in W.zero_params:
                         W.zero_params[(c, i)] = ('zerop', 'parameter %d of %s()' % (i + 1, c), '%s() passes %s unchecked' % (f, src[1]))
                         touched.add('=' + c)
+                if f not in W.truth_helpers and f not in W.evaluators and len(W.fn_unit.get(f, ())) == 1:
+                    th = eng.truth_param()
+                    if th is not None:
+                        W.truth_helpers[f] = th
+                        W.record_calls.add(f)
+                        touched.add(f)
                 for i in eng.mustdiv:
                     if not W.mustdiv.get((f, i)) and len(W.fn_unit.get(f, ())) == 1:
                         W.mustdiv[(f, i)] = True
